@@ -13,9 +13,49 @@ EXPLANATION = (
 def run(S):
     T.KT = T.KindTable(S.driver, S.adts)
     N = S.bounds['N']
-    kern.strip_validate(S)
-    kern.strip_hygiene(S, N)
-    libskel.run(S)
+    from mirsym.explore import Inconclusive
+    try:
+        kern.strip_validate(S)
+        kern.strip_hygiene(S, N)
+        libskel.run(S)
+    except Inconclusive as e:
+        # the post-processing is no longer the unit this check executes (renamed, removed, replaced): nothing is decided by the solver.  The
+        # property is still stated directly on what the real library returns over the native corpus below.
+        S.inconclusive.append(str(e))
+    w = native_hygiene(S)
+    S.validation['native_hygiene_sweep'] = 'clean' if not w else w['what']
+    if w:
+        S.violation('C11:native:output-hygiene', '%s (found by the native sweep of the real library)' % w['what'], dict(api=w))
     return S.finish(level='other', explanation=EXPLANATION,
                     trusted=['z3 4.x/5.1 (python API)', 'mirsym MIR->SMT encoder', 'std string contracts (validated natively each run)',
                              'pretty::Doc::pretty is opaque: its output is an arbitrary string'])
+
+
+HYGIENE_DOCS = [
+    '#{\n  let a = 1\n\n  let b = 2\n}\n', '#f(\n  a,\n\n  b,\n)\n', '/* a\n\n   b */\n', '#{\n  /* a\n\n     b */\n}\n', '#let s = "a"   \n', 'text   \n\n\n', 'a \\\nb\n', '- a\n\n  b\n',
+    '```\nraw\n\n```\n', '$ a \\\n\n b $\n', '#[\n  a\n\n  b\n]\n', '#{\n  {\n    {\n      a\n\n      b\n    }\n  }\n}\n', 'x' * 100 + ' /*\n\n*/\n', '#f(' * 60 + 'a,\n\nb' + ')' * 60 + '\n',
+    '= h \t\n', 'a\u00a0\n', '// c \u3000\n', '', ' ', '\n\n', '#{\n  let a = 1 // c   \n\n}\n',
+]
+
+
+def native_hygiene(S):
+    """every accepted input gives a non-empty text that ends in a line feed and has no line ending in a blank: stated on the real library
+    for documents with empty lines inside nested and deeply indented constructs, over widths and indent units (also very large ones)"""
+    from mirsym.session import hexs, unhexs
+    from .common import hygiene_ok, show
+    for src in HYGIENE_DOCS:
+        if S.driver.call('erroneous', hexs(src))[1] == '1':
+            continue
+        for w in (80, 0, 1000):
+            for t in (2, 0, 1, 7, 51, 101, 257):
+                r = S.driver.call('format', hexs(src), w, t, 0)
+                if r[0] in ('panic', 'abort'):
+                    continue            # C05's subject
+                if r[0] != 'ok':
+                    continue
+                out = unhexs(r[1])
+                if not hygiene_ok(out):
+                    bad = [l for l in out.split('\n') if l and l[-1] in ' \t\u00a0\u3000'][:1]
+                    return dict(api='Typstyle::format_content', source=src, width=w, tab=t, output=out[:400],
+                                what='output for %s (width %d, tab_spaces %d) breaks hygiene: %s' % (show(src)[:80], w, t, ('a line ends in %d blanks' % (len(bad[0]) - len(bad[0].rstrip())) if bad else 'empty or no final line feed')))
+    return None
